@@ -38,6 +38,9 @@ const (
 	// third part (code_gslice.go): a slice of any other element type as a value with
 	// capacity -> GSlice elem
 	kGSlice
+	// fourth part (code_part4.go)
+	kI32  // int32 -> Int32 (two's complement wrap-around, Lean's Int32)
+	kFunc // a parameter of function type without results: its calls are logged (callback log)
 )
 
 type gtype struct {
@@ -57,7 +60,7 @@ func (t gtype) eq(u gtype) bool {
 }
 
 func (t gtype) unsigned() bool { return t.kind == kU8 || t.kind == kU32 || t.kind == kU64 }
-func (t gtype) numeric() bool  { return t.kind == kInt || t.unsigned() }
+func (t gtype) numeric() bool  { return t.kind == kInt || t.kind == kI32 || t.unsigned() }
 
 func (t gtype) bits() int {
 	switch t.kind {
@@ -75,6 +78,10 @@ func (t gtype) lean() string {
 	switch t.kind {
 	case kInt:
 		return "Int"
+	case kI32:
+		return "Int32"
+	case kFunc:
+		return "List " + t.name
 	case kU8:
 		return "UInt8"
 	case kU32:
@@ -148,6 +155,11 @@ type fnCtx struct {
 	aux      [][]string // loop functions, emitted in front of the function
 	end      cont
 	labels   map[string][]ast.Stmt // label of a statement of the function body -> the statements from there on
+	// fourth part
+	localTypes   map[string]string // Go name of a struct type declared in the body -> Lean structure
+	pendingLabel string            // label of the loop statement that is translated next
+	cbParams     map[string][]gtype
+	retVars      []string // hidden variables that carry the values of a `return` inside a loop
 }
 
 type codegen struct {
@@ -166,15 +178,22 @@ type codegen struct {
 	busy       map[fnKey]bool
 	outs       []fnOut
 	// second part
-	phase2        bool
-	phase3        bool // third part (implies phase2): slices of any element type as values (code_gslice.go)
-	white3Set     map[fnKey]bool
-	white2Set     map[fnKey]bool
-	structPhase   map[string]int
-	sigs          map[fnKey]*fnSig
-	errVars       map[string]*errVar
-	errVarDropped map[string]bool
-	errVarUse     []string
+	phase2    bool
+	phase3    bool // third part (implies phase2): slices of any element type as values (code_gslice.go)
+	white3Set map[fnKey]bool
+	// fourth part (code_part4.go)
+	phase4          bool // implies phase3
+	white4Set       map[fnKey]bool
+	prefix          string             // Lean name prefix of the functions of a sub-package
+	reservedStructs map[string][]field // struct names of the root package (a sub-package must not re-use them)
+	opaqueOf        map[fnKey]bool     // callees that are parameters of the translated functions
+	cbTypes         map[string][]gtype // callback log type -> the parameter types of the callback
+	white2Set       map[fnKey]bool
+	structPhase     map[string]int
+	sigs            map[fnKey]*fnSig
+	errVars         map[string]*errVar
+	errVarDropped   map[string]bool
+	errVarUse       []string
 }
 
 func (c *codegen) pos(n ast.Node) string {
@@ -192,11 +211,15 @@ func fnName(k fnKey) string {
 	return k.recv + "." + k.name
 }
 
+// leanFnPrefix: the prefix of the Lean names of the functions of the package being translated or
+// rendered ("" for the root package, "suffix_" for package suffix).
+var leanFnPrefix = ""
+
 func leanFn(k fnKey) string {
 	if k.recv == "" {
-		return k.name
+		return leanFnPrefix + k.name
 	}
-	return k.recv + "_" + k.name
+	return leanFnPrefix + k.recv + "_" + k.name
 }
 
 // fail aborts the run: unsupported construct in a whitelisted function.
@@ -247,6 +270,22 @@ func (c *codegen) src(n ast.Node) string {
 		return c.src(x.Type) + "{...}"
 	case *ast.ArrayType:
 		return "[]" + c.src(x.Elt)
+	case *ast.FuncType:
+		var ps []string
+		if x.Params != nil {
+			for _, p := range x.Params.List {
+				var ns []string
+				for _, n := range p.Names {
+					ns = append(ns, n.Name)
+				}
+				if len(ns) > 0 {
+					ps = append(ps, strings.Join(ns, ", ")+" "+c.src(p.Type))
+				} else {
+					ps = append(ps, c.src(p.Type))
+				}
+			}
+		}
+		return "func(" + strings.Join(ps, ", ") + ")"
 	}
 	return fmt.Sprintf("%T", n)
 }
@@ -261,6 +300,10 @@ func (c *codegen) typeOf(e ast.Expr, at ast.Node) gtype {
 			return gtype{kind: kInt}
 		case "uint32":
 			return gtype{kind: kU32}
+		case "int32":
+			if c.phase4 {
+				return gtype{kind: kI32}
+			}
 		case "uint64", "uint":
 			return gtype{kind: kU64}
 		case "byte", "uint8":
@@ -271,6 +314,11 @@ func (c *codegen) typeOf(e ast.Expr, at ast.Node) gtype {
 			return gtype{kind: kString}
 		case "error":
 			return gtype{kind: kError}
+		}
+		if c.phase4 && c.cur != nil && c.cur.localTypes[x.Name] != "" && c.lookup(x.Name) == nil {
+			name := c.cur.localTypes[x.Name]
+			c.needStruct(name, at)
+			return gtype{kind: kStruct, name: name}
 		}
 		if _, ok := c.structs[x.Name]; ok {
 			name := x.Name
@@ -287,6 +335,10 @@ func (c *codegen) typeOf(e ast.Expr, at ast.Node) gtype {
 		t := c.typeOf(x.X, at)
 		if t.kind == kStruct {
 			return t
+		}
+	case *ast.FuncType:
+		if c.phase4 {
+			return c.callbackType(x, at)
 		}
 	case *ast.ArrayType:
 		if x.Len == nil {
@@ -423,7 +475,7 @@ func (c *codegen) fieldPath(t gtype, f string, at ast.Node) ([]string, gtype) {
 
 func zeroValue(t gtype) string {
 	switch t.kind {
-	case kInt, kU8, kU32, kU64:
+	case kInt, kU8, kU32, kU64, kI32:
 		return "0"
 	case kBool:
 		return "false"
@@ -437,6 +489,8 @@ func zeroValue(t gtype) string {
 		return "Slice.nil"
 	case kGSlice:
 		return "GSlice.nil"
+	case kFunc:
+		return "[]"
 	}
 	return ""
 }
@@ -462,6 +516,8 @@ var leanReserved = map[string]bool{
 	"grow": true, "fuel": true, "Res": true, "Slice": true,
 	// third part
 	"GSlice": true, "shiftCount": true,
+	// fourth part
+	"Int32": true, "leadingZeros64": true, "trailingZeros64": true, "highBitBelow": true, "lowBitFrom": true,
 }
 
 func (c *codegen) push() { c.cur.scopes = append(c.cur.scopes, map[string]*varInfo{}) }
@@ -602,7 +658,10 @@ func (c *codegen) cfold(e ast.Expr) (constant.Value, gtype, bool) {
 	case *ast.CallExpr:
 		if id, ok := x.Fun.(*ast.Ident); ok && len(x.Args) == 1 && (c.cur == nil || c.lookup(id.Name) == nil) {
 			switch id.Name {
-			case "int", "int64", "uint32", "uint64", "uint", "byte", "uint8":
+			case "int", "int64", "uint32", "uint64", "uint", "byte", "uint8", "int32":
+				if id.Name == "int32" && !c.phase4 {
+					break
+				}
 				v, _, ok := c.cfold(x.Args[0])
 				if ok && v.Kind() == constant.Int {
 					return v, c.typeOf(id, x), true
@@ -631,6 +690,12 @@ func (c *codegen) lit(v constant.Value, t gtype, bare bool, at ast.Node) string 
 		lim := constant.Shift(constant.MakeInt64(1), token.SHL, uint(t.bits()))
 		if !constant.Compare(v, token.LSS, lim) {
 			c.fail(at, "constant %s overflows %s", s, t)
+		}
+	}
+	if t.kind == kI32 {
+		lim := constant.MakeInt64(1 << 31)
+		if !constant.Compare(v, token.LSS, lim) || constant.Compare(v, token.LSS, constant.UnaryOp(token.SUB, lim, 0)) {
+			c.fail(at, "constant %s overflows int32", s)
 		}
 	}
 	if bare {
@@ -756,12 +821,21 @@ func (c *codegen) expr(e ast.Expr, want gtype, bare bool) (string, gtype) {
 			return "decide (" + c.cond(e) + ")", gtype{kind: kBool}
 		case token.SUB:
 			s, t := c.expr(x.X, want, false)
-			if t.kind != kInt {
+			if t.kind != kInt && t.kind != kI32 {
 				c.fail(e, "unary minus on %s", t)
 			}
 			return "-" + paren(s), t
 		case token.ADD:
 			return c.expr(x.X, want, bare)
+		case token.XOR:
+			if c.phase4 {
+				// ^x on an unsigned value: bitwise complement
+				s, t := c.expr(x.X, want, false)
+				if !t.unsigned() {
+					c.fail(e, "bitwise complement of %s (only unsigned values)", t)
+				}
+				return "~~~" + paren(s), t
+			}
 		}
 		c.fail(e, "unary operator %s", x.Op)
 	case *ast.BinaryExpr:
@@ -869,7 +943,7 @@ func (c *codegen) shift(x *ast.BinaryExpr, want gtype) (string, gtype) {
 		}
 		c.fail(x, "shift of an untyped constant by a variable count")
 	}
-	if !t.numeric() {
+	if !t.numeric() || t.kind == kI32 {
 		c.fail(x, "shift of %s", t)
 	}
 	var cnt string
@@ -972,6 +1046,15 @@ func (c *codegen) conv(to gtype, arg ast.Expr, at ast.Node) (string, gtype) {
 	switch {
 	case to.kind == kInt && from.unsigned():
 		return "Int.ofNat " + p + ".toNat", to
+	// int32 (fourth part): Go's conversions between integer types truncate / sign-extend
+	case to.kind == kI32 && from.kind == kInt:
+		return "Int32.ofInt " + p, to
+	case to.kind == kInt && from.kind == kI32:
+		return p + ".toInt", to
+	case to.kind == kI32 && from.unsigned():
+		return "Int32.ofInt (Int.ofNat " + p + ".toNat)", to
+	case to.unsigned() && from.kind == kI32:
+		return to.lean() + ".ofInt " + p + ".toInt", to
 	case to.unsigned() && from.kind == kInt:
 		return to.lean() + ".ofInt " + p, to
 	case to.unsigned() && from.unsigned():
